@@ -47,7 +47,7 @@ pub fn eval(case: &J) -> Outcome {
     let t = DataType::structured(cols.iter().enumerate().map(|(i, c)| (format!("c{i}"), DataType::Integer(c.clone()))).collect::<Vec<_>>());
     let e = pred_expr(&case["pred"]);
     let r = guarded(|| t.filter(&e));
-    let ft = match r { Ok(ft) => ft, Err((loc, msg)) => { out.imp = json!("panic"); out.fail(&format!("C18/filter/panic/{}", site_file(&loc)), format!("({t}).filter({e}) panicked: {msg}")); return out; } };
+    let ft = match r { Ok(ft) => ft, Err((loc, msg)) => { out.imp = json!("panic"); out.fail(&format!("C18/filter/panic/{}", site(&loc, &msg)), format!("({t}).filter({e}) panicked: {msg}")); return out; } };
     // canonical: per column interval list, if still an integer column
     let mut canon = vec![]; let mut all_int = true;
     if let DataType::Struct(s) = &ft { for (_, ct) in s.fields() { match ct.as_ref() { DataType::Integer(i) => canon.push(json!(i.iter().map(|[a, b]| json!([a, b])).collect::<Vec<_>>())), other => { all_int = false; canon.push(json!(other.to_string())); } } } } else { all_int = false; }
@@ -132,7 +132,7 @@ pub fn evalx(case: &J) -> Outcome {
     let cols: Vec<DataType> = case["cols"].as_array().unwrap().iter().map(ty_of).collect();
     let t = DataType::structured(cols.iter().enumerate().map(|(i, c)| (format!("c{i}"), c.clone())).collect::<Vec<_>>());
     let e = predx_expr(&case["pred"]);
-    let ft = match guarded(|| t.filter(&e)) { Ok(ft) => ft, Err((loc, msg)) => { out.tag("trivial"); out.fail(&format!("C18/filter/panic/{}", site_file(&loc)), format!("({t}).filter({e}) panicked: {msg}")); return out; } };
+    let ft = match guarded(|| t.filter(&e)) { Ok(ft) => ft, Err((loc, msg)) => { out.tag("trivial"); out.fail(&format!("C18/filter/panic/{}", site(&loc, &msg)), format!("({t}).filter({e}) panicked: {msg}")); return out; } };
     if ft != t { out.tag("narrowed"); } else { out.tag("trivial"); }
     let rows: Vec<Value> = case["rows"].as_array().unwrap().iter().map(|r| Value::structured(r.as_array().unwrap().iter().enumerate().map(|(i, x)| (format!("c{i}"), val_of(x))).collect::<Vec<_>>())).collect();
     let has_opt = cols.iter().any(|c| matches!(c, DataType::Optional(_)));
